@@ -44,3 +44,41 @@ pub struct Memo {
     pub cache: std::cell::RefCell<Vec<u8>>,
     pub hits: std::sync::atomic::AtomicUsize,
 }
+
+/// R06-11 fixtures: a key-value adapter whose batch write drops some records / keeps all of them
+pub struct Batch(pub Vec<(u8, Vec<u8>)>);
+impl Batch {
+    pub fn insert(&mut self, k: &u8, v: Vec<u8>) {
+        self.0.push((*k, v));
+    }
+}
+pub struct Kv(pub Vec<(u8, Vec<u8>)>);
+impl Kv {
+    pub fn apply_batch(&mut self, b: Batch) -> Result<(), String> {
+        self.0.extend(b.0);
+        Ok(())
+    }
+}
+pub struct Store(pub Kv);
+impl Store {
+    /// skips the records whose value is empty
+    pub fn put_batch_skips(&mut self, m: std::collections::HashMap<u8, Vec<u8>>) -> Result<(), String> {
+        let mut batch = Batch(Vec::new());
+        for (k, v) in m {
+            if v.is_empty() {
+                continue;
+            }
+            batch.insert(&k, v);
+        }
+        self.0.apply_batch(batch).map_err(|e| e + "!")?;
+        Ok(())
+    }
+    pub fn put_batch_whole(&mut self, m: std::collections::HashMap<u8, Vec<u8>>) -> Result<(), String> {
+        let mut batch = Batch(Vec::new());
+        for (k, v) in m {
+            batch.insert(&k, v);
+        }
+        self.0.apply_batch(batch).map_err(|e| e + "!")?;
+        Ok(())
+    }
+}
